@@ -108,6 +108,7 @@ def _case(rng):
             v['dtype'] = 'd'
     st = dict(dims={d[0]: d[1] for d in spec['dims']}, vars={v['name']: v['dims'] for v in spec['vars']},
               dtype={v['name']: v['dtype'] for v in spec['vars']})
+    st0 = dict(st['dims'])
     ops = [_op(rng, st) for _ in range(rng.randint(1, 6))]
     if rng.random() < 0.15 and len(st['dims']) > 1:
         # harness-only last step (not sent to the model, judged by the well-formedness oracle): arithmetic with a
@@ -116,6 +117,14 @@ def _case(rng):
         rng.shuffle(order)
         ops.append(['binopperm', rng.choice(['add', 'mul']), order])
     case = dict(spec=spec, ops=ops)
+    if rng.random() < 0.2:
+        # an index list given as a boolean mask over the dimension (the first selection of the sequence)
+        for op in ops:
+            if op[0] == 'slice' and op[1][0][1][0] == 'l':
+                n = st0[op[1][0][0]]
+                if n:
+                    op[1][0][1] = ['b', sorted(set(i % n for i in op[1][0][1][1])), n]
+            break
     if rng.random() < 0.25:
         # the operations that have an in-place form are run in that form (harness-only: the model's answer is the same)
         case['inplace'] = True
@@ -209,6 +218,28 @@ def _impl_scenario(c):
                 got = np.asarray(g.variables['A'][:])
                 if got.shape != want.shape or not (got == want).all():
                     states.append(dict(err='Content', msg='A has shape %s, numpy gives %s' % (got.shape, want.shape)))
+            elif c['kind'] == 'scalarfunc':
+                # a 1-D function that returns a scalar (np.max, a range) along the LEADING dimension: numpy drops the axis, the
+                # file keeps it with length 1 (the daily maximum over time)
+                f = pnc.PseudoNetCDFFile()
+                for dk, n in (('time', c['nt']), ('lev', c['nz']), ('lat', c['ny'])):
+                    f.createDimension(dk, n)
+                tv = f.createVariable('time', 'd', ('time',))
+                tv[:] = np.arange(c['nt'], dtype='d')
+                a = f.createVariable('A', 'd', ('time', 'lev', 'lat'))
+                a[:] = (np.arange(a.size, dtype='d').reshape(a.shape) * 7) % 11
+                b = f.createVariable('B', 'd', ('lev',))
+                b[:] = 1
+                rec(f, 'built')
+                fn = {'max': np.max, 'sum': np.sum, 'range': (lambda x: x[-1] - x[0])}[c['fn']]
+                g = f.applyAlongDimensions(time=fn)
+                rec(g, 'applyAlongDimensions(time=%s)' % c['fn'])
+                want = np.apply_along_axis(fn, 0, (np.arange(a.size, dtype='d').reshape(a.shape) * 7) % 11)[None]
+                got = np.asarray(g.variables['A'][:])
+                if got.shape != want.shape or not (got == want).all():
+                    states.append(dict(err='Content', msg='A has shape %s values %s, numpy gives %s %s' % (
+                        got.shape, got.ravel()[:4], want.shape, want.ravel()[:4])))
+                rec(g.copy(), 'copy')
             elif c['kind'] == 'pncrename_existing':
                 # the functional front end of rename, onto a name that exists already (outside the domain: it raises, or what
                 # it returns is well formed)
@@ -507,6 +538,20 @@ def gen(rng, tier):
     n = 300 if tier == 'quick' else 10000
     out = [_case(rng) for _ in range(n)]
     out += [_scenario(rng) for _ in range(n // 5)]
+    # on every run: sequences that begin with a boolean mask over a dimension (some True, not all)
+    got = 0
+    for _ in range(200):
+        c = _case(rng)
+        big = [d for d in c['spec']['dims'] if d[1] >= 2]
+        if not big or c.get('inplace'):
+            continue
+        d = rng.choice(big)
+        keep = sorted(rng.sample(range(d[1]), rng.randint(1, d[1] - 1)))
+        c['ops'] = [['slice', [[d[0], ['b', keep, d[1]]]]]] + [op for op in c['ops'] if op[0] in ('copy', 'renamevar', 'maskgt', 'binopself')][:2]
+        out.append(c)
+        got += 1
+        if got >= max(3, n // 100):
+            break
     # on every run: the functional rename onto an existing name, a pointwise selection of an IOAPI file that has the 1-D CF
     # coordinates, one file from disk as the argument of stack
     for _ in range(max(2, n // 100)):
@@ -516,6 +561,8 @@ def gen(rng, tier):
         out.append(dict(family='scenario', kind='ioapi_points_cf', ny=ny, nx=nx, nt=rng.randint(1, 2), which=rng.choice(['y', 'x', 'yx']),
                         iy=[rng.randrange(ny) for _ in range(npts)], ix=[rng.randrange(nx) for _ in range(npts)]))
         out.append(dict(family='scenario', kind='stack_disk_one', nt=rng.randint(1, 3), nx=rng.randint(1, 3)))
+        out.append(dict(family='scenario', kind='scalarfunc', nt=rng.randint(1, 3), nz=rng.randint(1, 3), ny=rng.randint(1, 3),
+                        fn=rng.choice(['max', 'sum', 'range'])))
     # IOAPI files (the subclass overrides most operations and re-derives dimensions and metadata): the C10 sequences,
     # judged here by the well-formedness predicate and the TSTEP-unlimited clause
     for _ in range(n // 6):
